@@ -24,6 +24,7 @@ EXPLANATION = (
     ' Failure is reported exactly when no tree was found (no empty result list reaches a printer); no default argument of the printers evaluates the language at import time.'
     ' Third round: elements taken off token work lists (tokens.pop(0), next(tokens)) are tokens for the placeholder-safe-access rule.'
     ' Fourth round: one-shot iterators bound before a loop and used inside it (R19.5, with an embedded example); the keys of the Prolog tables are read through comprehension entries; the gather rule of C11.'
+    ' Fifth round: R19.6 reads of unassigned locals (path-confirmed), the label rule of retrieve_tree and the conll head rule.'
 )
 TRUSTED = ['CPython ast', 'sa/pysym.py path walker', 'label extraction shared with C03/C04']
 
